@@ -72,7 +72,7 @@ func hostilePool() (full, reduced []string) {
 		"1 array dup dup 0 exch put", "{ } dup bind", "/selfp { selfp } def /selfp load", "5 dict dup dup /me exch put", "mark", "currentfile",
 		"/nm", "/add load", "true", "systemdict", "userdict", "errordict", "StandardEncoding", "{ 1 2 }", "<< /a 1 >>", "/add", "(add)"}
 	full = append(full, both...)
-	reduced = append(reduced, "1e308", "()", "65536 string", "1 array dup dup 0 exch put", "5 dict dup dup /me exch put", "mark", "currentfile", "/nm", "{ 1 2 }", "systemdict")
+	reduced = append(reduced, "1e308", "()", "65536 string", "1 array dup dup 0 exch put", "5 dict dup dup /me exch put", "mark", "currentfile", "/nm", "{ 1 2 }", "systemdict", "/add load", "true")
 	return
 }
 
